@@ -26,29 +26,45 @@ PID = "C17"
 TEST = "TestVerifC17"
 GROUPS = ["wallet", "blockrelay", "messenger", "controller", "cache", "validators", "attester",
           # the REST (MEV-boost) surface of the block relay, and two more pairs of the re-derived pair table
-          "registrar", "bids", "restcfg", "exechead", "syncagg", "bestvotes", "bidstrategy"]
+          "registrar", "bids", "restcfg", "exechead", "syncagg", "bestvotes", "bidstrategy",
+          # the dirk account manager: second and later refreshes of one instance || account queries
+          "dirk"]
 # (package of the driver, test binary name); the controller driver lives inside the controller package
 # because it reuses the C03 controller harness (package-internal)
 DRIVERS = {
     "ext": ("./verifdrivers/c17", "c17.test"),
     "controller": ("./services/controller/standard", "c17controller.test"),
+    # package-internal as well: the scripted wallets are put into the service's own wallet cache
+    "dirk": ("./services/accountmanager/dirk", "c17dirk.test"),
 }
 # pinned rendering: the groups in which the suspected defects D9 make TLC find a violation of Disciplined
 PINNED_VIOLATES = {"wallet": True, "blockrelay": True, "messenger": True, "controller": True,
                    "cache": False, "validators": False, "attester": False,
                    "registrar": False, "bids": False, "restcfg": True, "exechead": False, "syncagg": False,
                    "bestvotes": False, "bidstrategy": False}
+# (group dirk has no pinned rendering: its self-checks are the Reuse renderings below)
 # renderings of a CLASS of change that must violate Disciplined (non-vacuity of the entries of the Guard table
 # that no defect of the pinned tree exercises): cfg -> what it renders
 MUST_VIOLATE = {"MC_Concurrency_inplace_registrar.cfg":
-                "the registration round alters the published controlled-validators map in place"}
+                "the registration round alters the published controlled-validators map in place",
+                "MC_Concurrency_reuse_dirk.cfg":
+                "the dirk refresh builds its key list in the backing array of the published list: histories of three "
+                "calls on one instance (the second refresh overlaps a query)"}
+# ... and the control of that control: the same rendering is right as long as an instance sees ONE refresh (what
+# a check that starts every schedule on a fresh instance looks at) - must HOLD
+MUST_HOLD = {"MC_Concurrency_reuse_dirk_fresh.cfg":
+             "the Reuse rendering with at most one refresh overlapping anything on a fresh instance"}
 
 # Guard table keys -> how an access site is recognised in the source (file suffix, regex on the source line).
 # The names are the variables of Concurrency!Guard; anything else racing inside Vouch is reported under the
 # name "unlisted:<file>:<expr>".
 SITES = [
     ("wallet.accounts", "services/accountmanager/wallet/service.go", r"\bs\.accounts\b"),
-    ("dirk.accounts", "services/accountmanager/dirk/service.go", r"\bs\.accounts\b"),
+    ("dirk.accounts", "services/accountmanager/dirk/service.go", r"\bs\.accounts\b|\baccounts\["),
+    ("dirk.wallets", "services/accountmanager/dirk/service.go", r"\bs\.wallets\b"),
+    ("dirk.pubKeys", "services/accountmanager/dirk/service.go", r"\bs\.pubKeys\b"),
+    # the elements of a key list (a local name in refreshAccounts; handed to the validators manager by the readers)
+    ("dirk.pubKeys.elements", "services/accountmanager/dirk/service.go", r"\bpubKeys\b"),
     ("blockrelay.executionConfig", "services/blockrelay/standard/", r"\bs\.executionConfig\b"),
     ("v1.sharedProposerConfig", "services/blockrelay/v1/executionconfig.go", r"\bproposerConfig\.(GasLimit|Builder)\b"),
     # the contents of a configuration document are published through Service.executionConfig: a race on them is
@@ -84,7 +100,7 @@ def groups():
 
 
 def driver_of(g):
-    return "controller" if g == "controller" else "ext"
+    return g if g in ("controller", "dirk") else "ext"
 
 
 _BUILT = {}
@@ -284,12 +300,13 @@ def schedules(tier):
     hs = vf.tlc_scenarios(PID, "Scen_Concurrency", "Scen_Concurrency.cfg", exhaustive=True, timeout=600, workers=4)
     scs = [h[0] for h in hs if isinstance(h, list) and h and h[0].get("ev") == "Schedule"]
     scs.sort(key=lambda s: (s["g"], len(s["par"]), json.dumps(s, sort_keys=True)))
-    return [{"sc": i + 1, "g": s["g"], "pre": s["pre"], "par": s["par"]} for i, s in enumerate(scs)]
+    return [{"sc": i + 1, "g": s["g"], "pre": s["pre"], "par": s["par"], "hold": s.get("hold", "free")} for i, s in enumerate(scs)]
 
 
 def reps_for(g, tier):
-    quick = {"wallet": 40, "controller": 6, "bidstrategy": 6}
-    thorough = {"wallet": 400, "blockrelay": 40, "controller": 40, "registrar": 60, "restcfg": 40, "bidstrategy": 40}
+    quick = {"wallet": 40, "controller": 6, "bidstrategy": 6, "dirk": 10}
+    thorough = {"wallet": 400, "blockrelay": 40, "controller": 40, "registrar": 60, "restcfg": 40, "bidstrategy": 40,
+                "dirk": 100}
     if tier == "quick":
         return quick.get(g, 12)
     return thorough.get(g, 200)
@@ -429,20 +446,27 @@ def run(tier):
     ]
     gs = groups()
     full = gs == GROUPS
+    # the drivers are built (with -race) while TLC checks the model
+    builder = concurrent.futures.ThreadPoolExecutor(max_workers=1)     # one at a time: they share the overlay file
+    builds = [builder.submit(build, kind) for kind in sorted({driver_of(g) for g in gs})]
+    # non-vacuity of the lock discipline: the pinned rendering of the suspected defects must violate Disciplined, and so
+    # must the renderings of a CLASS of change (in-place registration round, re-used key list).  Small models,
+    # started now, side by side, next to the exhaustive run
+    small = concurrent.futures.ThreadPoolExecutor(max_workers=5)
+    futs, must = {}, {}
+    if full:
+        futs = {g: small.submit(vf.tlc, PID, "mc-pinned-" + g, "Concurrency", "MC_Concurrency_pinned_%s.cfg" % g, workers=1, timeout=600)
+                for g in PINNED_VIOLATES}
+        must = {cfg: small.submit(vf.tlc, PID, "mc-" + cfg[len("MC_Concurrency_"):-4], "Concurrency", cfg, workers=1, timeout=600)
+                for cfg in list(MUST_VIOLATE) + list(MUST_HOLD)}
     # the exhaustive run is part of every run (also of development runs restricted with VERIF_C17_GROUPS):
     # evidence.states / transitions are always those of THIS run
     v.add_mc(vf.tlc_exhaustive(PID, "Concurrency", "MC_Concurrency.cfg"))
     if full:
         if tier == "thorough":
             v.add_mc(vf.tlc_exhaustive(PID, "Concurrency", "MC_Concurrency_big.cfg", timeout=1500))
-        # non-vacuity of the lock discipline: the pinned rendering of the suspected defects must violate Disciplined,
-        # and so must the rendering of an in-place registration round (small models: run side by side)
-        with concurrent.futures.ThreadPoolExecutor(max_workers=4) as ex:
-            futs = {g: ex.submit(vf.tlc, PID, "mc-pinned-" + g, "Concurrency", "MC_Concurrency_pinned_%s.cfg" % g, workers=1, timeout=600)
-                    for g in GROUPS}
-            must = {cfg: ex.submit(vf.tlc, PID, "mc-" + cfg[len("MC_Concurrency_"):-4], "Concurrency", cfg, workers=1, timeout=600)
-                    for cfg in MUST_VIOLATE}
-            for g in GROUPS:
+        if True:
+            for g in PINNED_VIOLATES:
                 r = futs[g].result()
                 if PINNED_VIOLATES[g]:
                     if not (r["kind"] == "invariant" and r["violated"] == "Disciplined"):
@@ -455,7 +479,15 @@ def run(tier):
                 if not (r["kind"] == "invariant" and r["violated"] == "Disciplined"):
                     raise vf.Broken("%s (%s) does not violate Disciplined (%s %s): the lock discipline model is vacuous"
                                     % (cfg, what, r["kind"], r["violated"]))
+            for cfg, what in MUST_HOLD.items():
+                r = must[cfg].result()
+                if not r["ok"]:
+                    raise vf.Broken("%s (%s) does not hold (%s %s)" % (cfg, what, r["kind"], r["violated"]))
+    small.shutdown()
     scs = [s for s in schedules(tier) if s["g"] in gs]
+    for b in builds:
+        b.result()
+    builder.shutdown()
     per = {}
     for s in scs:
         per[s["g"]] = per.get(s["g"], 0) + 1
